@@ -11,6 +11,7 @@ import (
 	"math/rand"
 	"os"
 	"os/exec"
+	"reflect"
 	"runtime"
 	"sort"
 	"strings"
@@ -253,6 +254,9 @@ var poolCalls = []poolCall{
 	{"odd-empty", func() string { return string(redact.Sprintf("%s", "")) }},
 	// directives without a width right after calls that had one: precision 0 on the value 0 prints nothing but padding
 	{"zero-prec", func() string { return string(redact.Sprintf("[%.0d|%.0x|%.0o|%.d]", 0, 0, 0, 0)) }},
+	// explicit argument indexes, then a format without any directive and with surplus operands
+	{"reorder", func() string { return string(redact.Sprintf("%[2]d %[1]d|%[3]*.[2]*[1]f", 1, 2, 8)) }},
+	{"extra-plain", func() string { return string(redact.Sprintf("shutting down", 42, "x")) }},
 	{"widths", func() string { return string(redact.Sprintf("%8d|%-12s|%*d|%012.3f", 1, "s", 9, 2, 3.5)) }},
 }
 
@@ -535,6 +539,19 @@ func poolStress(args []string) {
 				hist = append(hist, c.name)
 				if len(hist) > 6 {
 					hist = hist[1:]
+				}
+				if r.Intn(8) == 0 {
+					// a struct TYPE nobody has printed before (whatever is remembered per type is filled in right now,
+					// on every goroutine at once): field names and values must come out as they are
+					name := fmt.Sprintf("F%dx%d", i, r.Intn(1<<30))
+					st := reflect.StructOf([]reflect.StructField{{Name: name, Type: reflect.TypeOf(0)}, {Name: "S" + name, Type: reflect.TypeOf("")}})
+					v := reflect.New(st).Elem()
+					v.Field(0).SetInt(7)
+					v.Field(1).SetString("u")
+					want := "{" + name + ":‹7› S" + name + ":‹u›}"
+					if got := guardCall(func() string { return string(redact.Sprintf("%+v", v.Interface())) }); got != want {
+						rep.Violate("pool:stress:fresh-struct-type", fmt.Sprintf("goroutine %d: %%+v of a new struct type printed %q, expected %q", i, got, want), poolCase{"pool-history", nil, "fresh-struct-type"})
+					}
 				}
 				if r.Intn(50) == 0 {
 					runtime.Gosched()
